@@ -110,7 +110,7 @@ Definition rqsc_new (c : sx) : option rqsc :=
      new_len = (len as u32) + old_len; checksum = 0; fresh Checksum fed by to_aml_bytes; checksum = value() *)
 Definition rqsc_add (md : mode) (s : rqsc) (q : qosc) : option rqsc :=
   let rcs := q :: r_rcs s in
-  do new_len <- add_m md U32 (cast U32 (q_length q)) (r_len s);
+  do new_len <- add_c U32 (cast U32 (q_length q)) (r_len s);
   let ck := ck_sink_vec 0 (rqsc_bytes (r_hdr s) new_len 0 rcs) in
   Some {| r_hdr := r_hdr s; r_len := new_len; r_hck := ck_value ck; r_rcs := rcs |}.
 
